@@ -170,7 +170,13 @@ def run_case(case):
         else:
             # multipole bound: |da_i| <= 8 theta^2 sum_j G m_j / r_ij^2 ; and errors do not increase when theta shrinks (factor 2 slack, vs theta/2)
             err = np.sqrt(((got.astype(np.longdouble) - want) ** 2).sum(axis=1)) if N else np.zeros(0)
-            bound = 8 * th2 * mag + 64 * EPS * mag
+            # the multipole bound is written in terms of the UNSOFTENED pair magnitudes G m_j / r_ij^2 (the derivatives of the Plummer
+            # kernel are bounded by those of the Newtonian one, its own magnitudes are not a valid scale once r < softening)
+            mag0 = mag
+            if soft > 0:
+                _w0, mag0 = oracle(np, xs, ms, G, 0.0, -1, 0, 0, ghosts, box)
+                counters['tree_softened_cases'] = counters.get('tree_softened_cases', 0) + 1
+            bound = 8 * th2 * mag0 + 64 * EPS * mag0
             # with ghost boxes, a cell that is not opened contains the particle's own image: the direct routines (and the tree at theta=0)
             # exclude self images, the monopole of an unopened cell includes them. The specification does not say which is meant,
             # so the self-image terms G m_i/|gb|^2 are allowed as slack (they are not multipole truncation error).
@@ -194,6 +200,22 @@ def run_case(case):
             err2 = np.sqrt(((got2.astype(np.longdouble) - want) ** 2).sum(axis=1)) if N else np.zeros(0)
             if N and not any(ghosts) and gt(float(err2.sum()), 2 * float(err.sum()) + 64 * EPS * float(mag.sum())):
                 viol.append(dict(mech='force:tree-error-grows-when-theta-shrinks', msg='sum err(theta2=%g)=%.3e, sum err(theta2=%g)=%.3e' % (th2, float(err.sum()), th2 / 4, float(err2.sum()))))
+            if soft > 0 and N > 8 and not any(ghosts):
+                # differential: the multipole error of the Plummer-softened kernel is not larger than that of the Newtonian kernel on the
+                # same tree (its higher derivatives are smaller); a cell accepted with the wrong force law shows up as an error that GROWS
+                # with the softening.  Same positions, same tree, same opening angle, softening switched off:
+                sim.opening_angle2 = th2
+                sim.softening = 0.0
+                clib.reb_simulation_update_acceleration(ctypes.byref(sim))
+                got0 = acc(sim)
+                want0, _m0 = oracle(np, xs, ms, G, 0.0, -1, 0, 0, ghosts, box)
+                err0 = np.sqrt(((got0.astype(np.longdouble) - want0) ** 2).sum(axis=1))
+                sim.softening = soft
+                e_s, e_0 = float(err.sum()), float(err0.sum())
+                if e_0 > 0:
+                    counters['max_softened_over_unsoftened_tree_error_x100'] = max(counters.get('max_softened_over_unsoftened_tree_error_x100', 0), int(100 * e_s / e_0))
+                if gt(e_s, 3 * e_0 + 64 * EPS * float(mag0.sum())):
+                    viol.append(dict(mech='force:tree-softened-error-exceeds-unsoftened', msg='theta2=%g softening=%g N=%d: sum of multipole errors %.3e with softening, %.3e without' % (th2, soft, N, e_s, e_0)))
             nontrivial = N > 8 and float(err.sum()) > 0
     elif kind == 'jacobi':
         # one WHFast step (Jacobi coordinates, default kernel) with gravity basic vs the Jacobi routine must agree to rounding
@@ -342,7 +364,9 @@ def plan(tier, seed):
             c['theta2'] = r.choice([0.0, 0.0, 0.01, 0.09, 0.25])
             c['tptype'] = 0
             if c['theta2'] > 0:
-                c['soft'] = 0.0
+                # softened tree forces: cells that are accepted as a whole must use the same Plummer-softened law as the leaves
+                # (softening from negligible to comparable with the distance of accepted cells; box length 10)
+                c['soft'] = r.choice([0.0, 0.0, 0.05, 0.5, 2.0])
         elif kind == 'jacobi':
             c['N'] = r.choice([2, 3, 4, 6, 9])
             c['soft'] = 0.0
